@@ -105,16 +105,31 @@ func bundleInput(texts map[string]string, pkg string) map[string]any {
 	return map[string]any{"package": pkg, "files": texts}
 }
 
+// caseTerm renders one correspondence case; a bundle with entities names the main files of the
+// sources that declare one (J5sCorr.CCompileE).
+func caseTerm(b *j5sgen.Bundle, pkg string, ok, okall, exact bool, files []*DFile) string {
+	var ents []string
+	for _, f := range b.Files {
+		if f.HasEntity() {
+			ents = append(ents, j5sgen.S(f.Path()+".proto"))
+		}
+	}
+	if len(ents) == 0 {
+		return fmt.Sprintf("CCompileV\n   %s\n   %s %s %s %s\n   %s", b.Coq(), j5sgen.S(pkg), vh.BoolTerm(ok), vh.BoolTerm(okall), vh.BoolTerm(exact), filesCoq(files))
+	}
+	return fmt.Sprintf("CCompileE\n   %s\n   %s [%s] %s %s %s\n   %s", b.Coq(), j5sgen.S(pkg), strings.Join(ents, "; "), vh.BoolTerm(ok), vh.BoolTerm(okall), vh.BoolTerm(exact), filesCoq(files))
+}
+
 func runC02(cfg *vh.Config) error {
 	log.SetOutput(io.Discard)
 	res := vh.NewResult("C02", cfg.Seed)
-	res.Rule = "generated valid j5s bundles (1-3 packages x 1-3 files; objects/oneofs/enums top-level, explicitly nested and inline to depth 4; every scalar type; arrays/maps; refs local, cross-file, imported by alias / package / path, implicit well-known; services with path parameters; publish/reqres/upsert/event topics), printed in randomly chosen surface forms; non-trivial = distinct bundle text with at least one field"
+	res.Rule = "generated valid j5s bundles (1-3 packages x 1-3 files; objects/oneofs/enums top-level, explicitly nested and inline to depth 4; every scalar type; arrays/maps; refs local, cross-file, imported by alias / package / path, implicit well-known; services with path parameters; publish/reqres/upsert/event topics; entities: 1-3 keys - key-typed primary / shard or any scalar -, data and event fields of every type, 1-4 statuses, 1-3 events), printed in randomly chosen surface forms; non-trivial = distinct bundle text with at least one field"
 	cf := &vh.CasesFile{
-		Header: "From Coq Require Import String List NArith.\nFrom J5V.model Require Import J5sAst Desc J5sCorr.",
+		Header: "From Coq Require Import String List NArith.\nFrom J5V.model Require Import J5sAst Desc J5sEntity J5sCorr.",
 		Type:   "c02case",
 		Check:  "c02_check",
 	}
-	n := cfg.Scale(250, 2400)
+	n := cfg.Scale(230, 2400)
 	distinct := vh.Distinct{}
 	const perShard = 40
 	stats := map[string]int{}
@@ -171,7 +186,7 @@ func runC02(cfg *vh.Config) error {
 			res.Count("accepted_all_packages")
 		}
 		exact := !(i < len(corpus) && corpus[i].Outside)
-		cf.Terms = append(cf.Terms, fmt.Sprintf("CCompileV\n   %s\n   %s %s %s %s\n   %s", b.Coq(), j5sgen.S(pkg), vh.BoolTerm(got.ok), vh.BoolTerm(okall), vh.BoolTerm(exact), filesCoq(got.files)))
+		cf.Terms = append(cf.Terms, caseTerm(b, pkg, got.ok, okall, exact, got.files))
 		res.Cases = append(res.Cases, vh.CaseRec{Case: i, Stream: stream, Input: in, Impl: map[string]any{"ok": got.ok, "ok_all_packages": okall, "err": got.err, "files": got.all}})
 		if len(texts) == 1 && i >= len(corpus) {
 			res.Sample(in, 3)
@@ -206,7 +221,7 @@ func runC02(cfg *vh.Config) error {
 			res.Count("malformed_accepted")
 		}
 		okall := acceptsAll(b, texts, pkg, got.ok)
-		cf.Terms = append(cf.Terms, fmt.Sprintf("CCompileV\n   %s\n   %s %s %s true\n   %s", b.Coq(), j5sgen.S(pkg), vh.BoolTerm(got.ok), vh.BoolTerm(okall), filesCoq(got.files)))
+		cf.Terms = append(cf.Terms, caseTerm(b, pkg, got.ok, okall, true, got.files))
 		res.Cases = append(res.Cases, vh.CaseRec{Case: caseNo, Stream: "malformed: " + what, Input: in, Impl: map[string]any{"ok": got.ok, "ok_all_packages": okall, "err": got.err}})
 	}
 	for k, v := range stats {
